@@ -54,14 +54,14 @@ var codeToTwirp = [...]string{
 }
 
 func twirpCode(c codes.Code) string {
-	if int(c) >= len(codeToTwirp) {
+	if c >= codes.Code(len(codeToTwirp)) {
 		return "unknown"
 	}
 	return codeToTwirp[c]
 }
 
 func HTTPStatusCode(c codes.Code) int {
-	if int(c) >= len(codeToHTTPStatus) {
+	if c >= codes.Code(len(codeToHTTPStatus)) {
 		return http.StatusInternalServerError
 	}
 	return codeToHTTPStatus[c]
@@ -89,7 +89,7 @@ var codeToWSStatus = [...]ws.StatusCode{
 }
 
 func WSStatusCode(c codes.Code) ws.StatusCode {
-	if int(c) >= len(codeToWSStatus) {
+	if c >= codes.Code(len(codeToWSStatus)) {
 		return ws.StatusInternalServerError
 	}
 	return codeToWSStatus[c]
